@@ -168,6 +168,58 @@ def run_case(ck: Check, case: dict):
         ev = graphs.drain_events()
         if ev:
             ck.violation("C04/events", "library event during path query: " + str(ev[0])[:100], dict(rep, events=[str(e)[:200] for e in ev[:3]]))
+    if case.get("derived") and gd.kind == "perm" and len(gd.gens) >= 2 and not ck.violations:
+        derived_copy_stage(ck, case, gd, cfg, D, queries, g)
+
+
+def derived_copy_stage(ck, case, gd, cfg, D, queries, g):
+    """A copy of the graph object derived with `modified_copy` AFTER the original has answered path queries (its lazily built
+    inverted graph exists by now): the copy gets another definition (the generators in reversed order) and must answer like a
+    fresh graph of that definition."""
+    gens2 = [list(p) for p in reversed(gd.gens)]
+    if gens2 == [list(p) for p in gd.gens]:
+        return
+    gd2 = graphs.GDef("perm", gens2, list(gd.central), tag=gd.tag + "+derived-copy")
+    ctx2 = algos.Ctx(ck, gd2, cfg, extra_states=queries)
+    if not ctx2.ok:
+        return
+    st, g2 = algos.call(g.modified_copy, ctx2.g.definition)
+    if st != "ok":
+        ck.violation("C04/derived-copy/error", "modified_copy raised: " + g2, {"case": dict(case, stage="derived-copy")})
+        return
+    ctx2.g = g2
+    ctx2.send_table()
+    st, r2 = algos.call(g2.bfs, return_all_hashes=True, max_diameter=D)
+    if st != "ok":
+        ck.violation("C04/derived-copy/bfs-error", "BFS on the derived copy raised: " + r2, {"case": dict(case, stage="derived-copy")})
+        return
+    depth = len(r2.layers_hashes) - 1
+    for q in queries:
+        d = ctx2.dist_from_central(q)
+        in_ball = d is not None and d <= depth
+        ck.case(["to-derived", gd2.key(), cfg, D, q], True)
+        ck.count("derived-copy query:" + ("inside" if in_ball else "outside"))
+        st, p = algos.call(g2.find_path_to, list(q), r2)
+        rep = {"case": dict(case, queries=[q], stage="derived-copy (generators reversed, copy taken after the original answered queries)"), "true_distance": d, "ball_depth": depth}
+        if st != "ok":
+            ck.violation("C04/derived-copy/find_path_to/error", "find_path_to on the derived copy raised: " + p, dict(rep, observed=p))
+            return
+        if not in_ball:
+            if p is not None:
+                ck.violation("C04/derived-copy/find_path_to/phantom", "derived copy returned a path for a state outside layers 0..D", dict(rep, observed=p))
+            continue
+        if p is None:
+            ck.violation("C04/derived-copy/find_path_to/missed", "derived copy returned no path for a state inside layers 0..D", rep)
+            return
+        end = ctx2.apply_path(gd2.central, p)
+        if end != tuple(q) or len(p) != d:
+            ck.violation("C04/derived-copy/find_path_to/invalid", "path returned by the derived copy does not lead from the central state to the query (numbered by the copy's own generators), or is not shortest", dict(rep, observed=p, replay_end=end))
+            return
+        if g2.definition.generators_inverse_closed:
+            st, pf = algos.call(g2.find_path_from, list(q), r2)
+            if st != "ok" or pf is None or ctx2.apply_path(q, pf) != tuple(gd2.central) or len(pf) != d:
+                ck.violation("C04/derived-copy/find_path_from/invalid", f"find_path_from on the derived copy: {pf}", dict(rep, observed=pf))
+                return
 
 
 def gen_case(ck: Check, cap):
@@ -184,7 +236,7 @@ def gen_case(ck: Check, cap):
     o = outside_state(rng, gd, orbit)
     if o is not None and rng.random() < 0.6:
         queries.append(o)
-    return {"gd": gd.to_json(), "cfg": graphs.gen_cfg(rng, gd), "D": D, "queries": queries, "store": rng.choice([None, 1, 1000]), "nobatch": rng.random() < 0.3, "via_file": rng.random() < 0.15, "ball_stop": rng.choice(["depth", "depth", "callback", "explore"]), "container": algos.pick_container(rng, max(x for q in queries for x in q), min(x for q in queries for x in q))}
+    return {"gd": gd.to_json(), "cfg": graphs.gen_cfg(rng, gd), "D": D, "queries": queries, "store": rng.choice([None, 1, 1000]), "nobatch": rng.random() < 0.3, "via_file": rng.random() < 0.15, "ball_stop": rng.choice(["depth", "depth", "callback", "explore"]), "container": algos.pick_container(rng, max(x for q in queries for x in q), min(x for q in queries for x in q)), "derived": rng.random() < 0.3}
 
 
 def main():
